@@ -191,7 +191,7 @@ def gen_graph(rng):
             elif r < 7:
                 members.append(("p", rng.choice(["s", True, None, 1.5])))
             elif r < 8:
-                members.append(("u", None))     # undefined
+                members.append(("u", None) if rng.chance(1, 2) else ("y", None))     # undefined / a symbol-keyed member
             elif r < 9:
                 members.append(("f", None))     # function
             else:
@@ -199,16 +199,21 @@ def gen_graph(rng):
     return objs
 
 
-def graph_js(objs):
+def graph_js(objs, as_value=False):
     lines = ["const o = [%s];" % ", ".join("[]" if k == "arr" else "{}" for k, _ in objs)]
     for i, (kind, members) in enumerate(objs):
         for j, (t, v) in enumerate(members):
-            val = {"p": json.dumps(v), "r": "o[%s]" % v, "u": "undefined", "f": "function () {}"}[t]
-            if kind == "arr":
+            val = {"p": json.dumps(v), "r": "o[%s]" % v, "u": "undefined", "f": "function () {}", "y": "undefined"}[t]
+            if t == "y" and kind != "arr":
+                lines.append("o[%d][Symbol('k%d')] = %d;" % (i, j, j + 1))
+            elif kind == "arr":
                 lines.append("o[%d].push(%s);" % (i, val))
             else:
                 lines.append("o[%d].m%d = %s;" % (i, j, val))
-    lines.append("let out; try { out = JSON.stringify(o[0]); } catch (e) { out = 'ERR:' + e.name; } out")
+    if as_value:
+        lines.append("o[0]")        # the value itself: the host reads it through js_value_to_json
+    else:
+        lines.append("let out; try { out = JSON.stringify(o[0]); } catch (e) { out = 'ERR:' + e.name; } out")
     return "\n".join(lines)
 
 
@@ -395,6 +400,22 @@ def run(chk):
                 if stats["disagreements"] <= 4:
                     chk.violation({"graph": g, "program": graph_js(g), "specified": exp, "observed": got,
                                    "what": "JSON.stringify of a value graph: acyclic graphs serialise to their unfolding, cyclic ones are refused"})
+        # the same graphs handed to the host as values (js_value_to_json, the exported-value path)
+        import c11
+        acyc = [(i, g) for i, g in enumerate(graphs) if not isinstance(graph_expected(g), str)][:120 if chk.tier == "quick" else 1500]
+        sres, err = c11.run_seq(chk, [{"gc": [0, 1, 3][i % 3], "runs": [{"src": graph_js(g, True), "path": None}]} for i, g in acyc], "g16")
+        for (i, g), o in zip(acyc, sres):
+            stats["graphs"] += 1
+            run0 = (o.get("runs") or [{}])[0]
+            exp = graph_expected(g)
+            okay = run0.get("status") == "complete" and same_json(run0.get("json"), exp)
+            if not okay:
+                stats["disagreements"] += 1
+                if stats["disagreements"] <= 6:
+                    chk.violation({"graph": g, "program": graph_js(g, True), "specified": exp,
+                                   "observed": {k: run0.get(k) for k in ("status", "json", "class", "message")} or o,
+                                   "what": "a value graph handed to the host (js_value_to_json) is not its unfolding: undefined, functions and "
+                                           "symbol-keyed members have no JSON form"})
         chk.samples.append({"stream": "value graphs", "graph": graphs[3]})
     chk.coverage.update({
         "evaluations": stats["docs"] * 4 + stats["reads"] + stats["graphs"],
